@@ -403,3 +403,35 @@
 		let der = yasna::construct_der(|w| w.write_bytes(&v));
 		assert!(der.len() == 133 && der[0] == 0x04 && der[1] == 0x81 && der[2] == 130, "minimal long-form length");
 	}
+
+	// ---------------------------------------------------------------- thorough tier: larger shapes
+	/// @ob aki.bytes.sha_length @props C02,C03,C08 @kind bounded @tier thorough @timeout 1200 @mem 16 @bound "key identifier of 20 symbolic bytes (the length of the RFC 7093 identifiers)" @fns rcgen::write_x509_authority_key_identifier
+	#[kani::proof]
+	#[kani::unwind(48)]
+	fn aki_bytes_sha_length() {
+		let v: [u8; 20] = kani::any();
+		kani::cover!(true, "reachable");
+		let der = yasna::construct_der(|w| write_x509_authority_key_identifier(w, v.to_vec()));
+		let hdr = [0x30, 31, 0x06, 3, 0x55, 0x1d, 35, 0x04, 24, 0x30, 22, 0x80, 20];
+		assert!(der.len() == 33);
+		let mut i = 0;
+		while i < 13 { assert!(der[i] == hdr[i]); i += 1; }
+		let mut i = 0;
+		while i < 20 { assert!(der[13 + i] == v[i]); i += 1; }
+	}
+
+	/// @ob ext.wrapper_bytes.long_value @props C02,C04 @kind bounded @tier thorough @timeout 1800 @mem 24 @bound "extension value = OCTET STRING of 130 symbolic bytes (long-form lengths at three nesting levels)" @fns rcgen::write_x509_extension
+	#[kani::proof]
+	#[kani::unwind(140)]
+	fn x509_extension_bytes_long_value() {
+		let v: [u8; 130] = kani::any();
+		kani::cover!(true, "reachable");
+		let der = yasna::construct_der(|w| write_x509_extension(w, &[2, 5, 29, 15], false, |w| w.write_bytes(&v)));
+		// 30 81 8d | 06 03 55 1d 0f | 04 81 85 | 04 81 82 <130>
+		let hdr = [0x30, 0x81, 141, 0x06, 3, 0x55, 0x1d, 0x0f, 0x04, 0x81, 133, 0x04, 0x81, 130];
+		assert!(der.len() == 14 + 130);
+		let mut i = 0;
+		while i < 14 { assert!(der[i] == hdr[i]); i += 1; }
+		let mut i = 0;
+		while i < 130 { assert!(der[14 + i] == v[i]); i += 1; }
+	}
